@@ -406,5 +406,55 @@ def c16i(db, res):
                     res.violated('C16.i', key, '%s is a %s-side function and reads %s although its own direction has %s: the value of the other direction is used (a slip between twin fields)' % (n, 'request' if d == 'in' else 'response', m['field'], twin(m['field'])), m['loc'])
                 else:
                     res.unknown('C16.i', key, 'reads state of the other direction that has no twin on this side; not reviewed', m['loc'])
+    # through helpers: the stores a callee makes (closure over the call graph; transaction/parser life-cycle functions, hook runs and
+    # logging excluded - they serve both directions by design) count as the caller's
+    LIFE_PREFIX = ('htp_tx_state', 'htp_tx_destroy', 'htp_tx_finalize', 'htp_connp_tx', 'htp_hook', 'htp_log', 'htp_tx_create')
+    LIFE = {'htp_connp_destroy', 'htp_connp_destroy_all', 'htp_connp_close', 'htp_connp_req_close', 'htp_connp_create', 'htp_connp_open'}
+    CALLS = {('htp_tx_state_request_line', 'htp_normalize_parsed_uri'): 'the status a compliant server would answer with is an indicator computed from the request'}
+
+    def life(g):
+        return g.startswith(LIFE_PREFIX) or g in LIFE
+    W = {}
+    for n, f in db.fn.items():
+        if not f.blocks:
+            continue
+        w = set()
+        for b, i, st in f.stmts():
+            for x in nodes(st, lambda y: y.get('k') == 'assign' or (y.get('k') == 'un' and y['op'] in ('++', '--', '++post', '--post'))):
+                l = strip(x.get('l') if x['k'] == 'assign' else x['e'])
+                if l is not None and l.get('k') == 'member' and l.get('rec') in ('htp_connp_t', 'htp_tx_t') and (fdir(l['field']) or ('in' if l['field'].startswith('req_') else None)):
+                    w.add((fdir(l['field']) or 'in', l['field']))
+        W[n] = w
+    E = {n: set(w) for n, w in W.items()}
+    ch = True
+    while ch:
+        ch = False
+        for n, f in db.fn.items():
+            if not f.blocks:
+                continue
+            for b, i, c in f.calls(None):
+                g = c.get('callee')
+                if g in E and not life(g) and E[g] - E[n]:
+                    E[n] |= E[g]
+                    ch = True
+    ncall = 0
+    for n, f in sorted(db.fn.items()):
+        d = direction(n)
+        if not d or not f.blocks:
+            continue
+        for b, i, c in f.calls(None):
+            g = c.get('callee')
+            if g not in E or life(g) or direction(g) == d:
+                continue
+            other = sorted(x[1] for x in E[g] if x[0] != d)
+            ncall += 1
+            if not other:
+                continue
+            key = '%s:calls:%s' % (n, g)
+            if (n, g) in CALLS:
+                res.holds('C16.i', key, 'reviewed: ' + CALLS[(n, g)], c['loc'])
+            else:
+                res.violated('C16.i', key, '%s is a %s-side function and calls %s, which stores to state of the other direction (%s): what belongs to the other direction is changed or released behind its back' % (n, 'request' if d == 'in' else 'response', g, ', '.join(other[:3])), c['loc'])
+    res.analysed['C16.i calls from a directional function to helpers of no or the other direction'] = ncall
     res.floor('C16.i', 'functions with a direction', nfn, 60)
     res.analysed['C16.i reviewed cross-direction accesses still present'] = len([k for k in CROSS if k in seen])
